@@ -6,6 +6,7 @@ import (
 	"reflect"
 	"strconv"
 	"strings"
+	"time"
 
 	"github.com/php-any/origami/data"
 )
@@ -19,23 +20,50 @@ type kindT struct {
 	Bits   int
 	Signed bool
 	Core   bool // documented parameter/result kind (string, bool, int, int64, float64)
+	Named  bool // named Go type with a basic underlying type (time.Duration, type NStr string, ...)
+	GoName string
 }
 
+// named types: same Kind as a basic type, different reflect.Type
+type (
+	NStr  string
+	NF64  float64
+	NBool bool
+	NU8   uint8
+)
+
 var kinds = []kindT{
-	{"string", reflect.TypeOf(""), "string", 0, false, true},
-	{"bool", reflect.TypeOf(true), "bool", 0, false, true},
-	{"int", reflect.TypeOf(int(0)), "int", 64, true, true},
-	{"int64", reflect.TypeOf(int64(0)), "int", 64, true, true},
-	{"float64", reflect.TypeOf(float64(0)), "float", 64, false, true},
-	{"int8", reflect.TypeOf(int8(0)), "int", 8, true, false},
-	{"int16", reflect.TypeOf(int16(0)), "int", 16, true, false},
-	{"int32", reflect.TypeOf(int32(0)), "int", 32, true, false},
-	{"uint", reflect.TypeOf(uint(0)), "int", 64, false, false},
-	{"uint8", reflect.TypeOf(uint8(0)), "int", 8, false, false},
-	{"uint16", reflect.TypeOf(uint16(0)), "int", 16, false, false},
-	{"uint32", reflect.TypeOf(uint32(0)), "int", 32, false, false},
-	{"uint64", reflect.TypeOf(uint64(0)), "int", 64, false, false},
-	{"float32", reflect.TypeOf(float32(0)), "float", 32, false, false},
+	{"string", reflect.TypeOf(""), "string", 0, false, true, false, ""},
+	{"bool", reflect.TypeOf(true), "bool", 0, false, true, false, ""},
+	{"int", reflect.TypeOf(int(0)), "int", 64, true, true, false, ""},
+	{"int64", reflect.TypeOf(int64(0)), "int", 64, true, true, false, ""},
+	{"float64", reflect.TypeOf(float64(0)), "float", 64, false, true, false, ""},
+	{"int8", reflect.TypeOf(int8(0)), "int", 8, true, false, false, ""},
+	{"int16", reflect.TypeOf(int16(0)), "int", 16, true, false, false, ""},
+	{"int32", reflect.TypeOf(int32(0)), "int", 32, true, false, false, ""},
+	{"uint", reflect.TypeOf(uint(0)), "int", 64, false, false, false, ""},
+	{"uint8", reflect.TypeOf(uint8(0)), "int", 8, false, false, false, ""},
+	{"uint16", reflect.TypeOf(uint16(0)), "int", 16, false, false, false, ""},
+	{"uint32", reflect.TypeOf(uint32(0)), "int", 32, false, false, false, ""},
+	{"uint64", reflect.TypeOf(uint64(0)), "int", 64, false, false, false, ""},
+	{"float32", reflect.TypeOf(float32(0)), "float", 32, false, false, false, ""},
+	{"duration", reflect.TypeOf(time.Duration(0)), "int", 64, true, false, true, "time.Duration"},
+	{"nstr", reflect.TypeOf(NStr("")), "string", 0, false, false, true, "NStr"},
+	{"nf64", reflect.TypeOf(NF64(0)), "float", 64, false, false, true, "NF64"},
+	{"nbool", reflect.TypeOf(NBool(false)), "bool", 0, false, false, true, "NBool"},
+	{"nu8", reflect.TypeOf(NU8(0)), "int", 8, false, false, true, "NU8"},
+}
+
+const nBasic = 14 // kinds[:nBasic] are the unnamed basic types
+
+// basicOf returns the unnamed kind with the same reflect.Kind as a named kind.
+func basicOf(k *kindT) *kindT {
+	for i := 0; i < nBasic; i++ {
+		if kinds[i].T.Kind() == k.T.Kind() {
+			return &kinds[i]
+		}
+	}
+	return nil
 }
 
 const nCore = 5
@@ -53,6 +81,9 @@ func kindByName(n string) *kindT {
 func (k *kindT) group() string {
 	if k.Core {
 		return k.Name
+	}
+	if k.Named {
+		return "named"
 	}
 	return "sized"
 }
@@ -344,7 +375,7 @@ func resultPool(k *kindT) []rval {
 	case "string":
 		var r []rval
 		for _, n := range stringNames {
-			r = append(r, rval{n, reflect.ValueOf(stringPool[n])})
+			r = append(r, rval{n, reflect.ValueOf(stringPool[n]).Convert(k.T)})
 		}
 		return r
 	case "bool":
